@@ -315,9 +315,16 @@ def oracle_at(cfg, ops, upto):
     try:
         for i, op in enumerate(ops[:upto + 1]):
             r = real_op(w.fs, op)
+            if op[0] == "remove" and not op[1].strip("/"):
+                continue        # remove("/"): FileExpected (pyfatfs, OSFS) vs MemoryFS' ResourceNotFound — a quirk of the reference
             # the same call on the reference filesystem
             if op[0] == "fwrite":
-                seq = [["open", "h", op[1], "r+"], ["seek", "h", op[2], 0], ["write", "h", op[4], op[3]], ["close", "h"]]
+                pos = op[2]
+                try:
+                    pos = min(pos, ref.getsize(op[1]))   # C02's domain: positions inside the file (beyond: known finding D17c)
+                except Exception:  # noqa
+                    pass
+                seq = [["open", "h", op[1], "r+"], ["seek", "h", pos, 0], ["write", "h", op[4], op[3]], ["close", "h"]]
             elif op[0] == "ftrunc":
                 seq = [["open", "h", op[1], "r+"], ["truncate", "h", op[2]], ["close", "h"]]
             else:
@@ -348,6 +355,20 @@ def oracle_at(cfg, ops, upto):
                     break
         except Exception as e:  # noqa
             found.append((["C01", "C03"], "walk-raises", common.exc_class(e) + ": " + str(e)[:120]))
+        # the allocator's hint must not have moved past free clusters: everything that is free can be had
+        try:
+            pf = w.fs.fs
+            bound = min(len(pf.fat), pf._get_cluster_count() + 2)
+            free = [i for i in range(2, bound) if pf.fat[i] == 0]
+            skipped = [i for i in free if i < pf.first_free_cluster]
+            if skipped and len(free) > 3:
+                r1 = real_op(w.fs, ["create", "/PROBE.BIN", False])
+                r2 = real_op(w.fs, ["fwrite", "/PROBE.BIN", 0, (len(free) - 3) * pf.bytes_per_cluster, 99])
+                if r1 == "err PyFAT:28" or r2 == "err PyFAT:28":
+                    found.append((["C01"], "enospc-spurious", "%d clusters are free (e.g. %s) but the allocation hint is %d: writing %d clusters is "
+                                  "refused with ENOSPC" % (len(free), skipped[:4], pf.first_free_cluster, len(free) - 3)))
+        except Exception as e:  # noqa
+            found.append((["C01"], "probe-raises", common.exc_class(e)))
         try:
             problems = specfat.fsck(w.dev.snapshot(), w.off)
             if problems:
@@ -389,11 +410,11 @@ def gen_program(r, nops, bpc, pool, deep=False):
         elif c < 0.62 and files:
             p = r.choice(sorted(files))
             size = files[p]
-            pos = r.choice([0, size, size // 2, max(0, size - 1), min(size, bpc), min(size, (size // bpc) * bpc)])
-            n = r.choice(sizes)
+            pos = r.choice([0, size, size // 2, max(0, size - 1), min(size, bpc), min(size, (size // bpc) * bpc), size + r.choice([1, bpc])])
+            n = r.choice(sizes + [0])
             tagc[0] += 1
             ops.append(["fwrite", p, pos, n, tagc[0]])
-            files[p] = max(size, pos + n)
+            files[p] = max(size, min(pos, size) + n)
         elif c < 0.74 and files:
             p = r.choice(sorted(files))
             size = files[p]
@@ -445,6 +466,28 @@ def fill_program(r, bpc, nclus):
     ops.append(["fwrite", "/small", 0, 4 * bpc, 20])
     ops.append(["remove", "/D/BIG"])
     ops.append(["ftrunc", "/small", 9 * bpc + 1])
+    return ops
+
+
+def frag_program(r, bpc):
+    """chains that run backwards into freed space, then are freed themselves; finally everything is claimed again"""
+    ops = [["makedir", "/d"]]
+    names = ["/A.BIN", "/d/B.BIN", "/C.BIN", "/d/a long name for d.bin", "/E.BIN"]
+    for i, nm in enumerate(names):
+        ops.append(["create", nm, False])
+        ops.append(["fwrite", nm, 0, r.choice([1, 2, 3]) * bpc + r.choice([0, 1]), i])
+    victims = r.sample(names, 3)
+    ops.append(["remove", victims[0]])
+    keep = [n for n in names if n not in victims[:1]]
+    g = r.choice(keep)
+    ops.append(["fwrite", g, 0, 9 * bpc, 10])            # grows into the hole and beyond
+    ops.append(["ftrunc", g, r.choice([0, 1, bpc, 2 * bpc + 1])])
+    ops.append(["remove", victims[1]] if victims[1] in keep else ["makedir", "/d/sub"])
+    ops.append(["fwrite", g, 0, 12 * bpc, 11])
+    ops.append(["remove", g])
+    ops.append(["create", "/Z.BIN", False])
+    ops.append(["fwrite", "/Z.BIN", 0, 20 * bpc, 12])
+    ops.append(["create", g, True])
     return ops
 
 
@@ -539,6 +582,8 @@ def run(tier):
         big = count > 5000
         for kind in ("create", "makedir"):
             one(ci, grow_program(kind, 12 if tier == "quick" else 40, bpc), "grow-" + kind, device_every=4 if big else 1)
+        for _ in range(2 if tier == "quick" else 12):
+            one(ci, frag_program(r, bpc), "frag", device_every=4 if big else 1)
         if count <= 1200:
             one(ci, fill_program(r, bpc, count), "fill")
         if ty != 32 and rootent <= 64:
